@@ -50,6 +50,17 @@
 #define private public
 #include <dmlc/threadediter.h>
 #undef private
+// the same header once more with DCHECK live (as in builds where DMLC_LOG_DEBUG is 0), as class ThreadedIterDchk
+#undef DMLC_THREADEDITER_H_
+#undef DCHECK
+#define DCHECK(x) CHECK(x)
+#define ThreadedIter ThreadedIterDchk
+#define ScopedThread ScopedThreadDchk
+#define private public
+#include <dmlc/threadediter.h>
+#undef private
+#undef ThreadedIter
+#undef ScopedThread
 #define VSCHED_SUBSTITUTE_END
 #include "common/vsched.h"
 
@@ -60,6 +71,9 @@ struct Cell {
   int id = -1;
 };
 typedef dmlc::ThreadedIter<Cell> Iter;
+typedef dmlc::ThreadedIterDchk<Cell> IterD;
+// member access on whichever of the two iterator objects the execution uses
+#define IT(X, e) ((X)->iterd ? (X)->iterd->e : (X)->iter->e)
 
 // ------------------------------------------------------------------------------------------------
 // program specification
@@ -73,6 +87,7 @@ struct Spec {
   std::vector<PassSpec> passes;
   std::string rew;
   char exk = 'd';
+  bool dchk = false;   // run on the DCHECK-live instantiation (oracle only)
   std::vector<std::string> A, B;
 
   static std::string join(const std::vector<std::string> &v) {
@@ -96,6 +111,7 @@ struct Spec {
       s += (i ? "," : "") + std::to_string(passes[i].n) + std::string(1, passes[i].term);
     s += " rew=" + (rew.empty() ? std::string("-") : rew) + " exk=" + std::string(1, exk) + " A=" + join(A);
     if (!B.empty()) s += " B=" + join(B);
+    if (dchk) s += " dchk=1";
     return s;
   }
   static bool parse(const std::vector<std::string> &w, Spec *sp, std::string *sched) {
@@ -116,6 +132,7 @@ struct Spec {
         ok = !sp->passes.empty();
       } else if (k == "rew") sp->rew = v == "-" ? "" : v;
       else if (k == "exk") sp->exk = v.empty() ? 'd' : v[0];
+      else if (k == "dchk") sp->dchk = v == "1";
       else if (k == "A") sp->A = splitc(v);
       else if (k == "B") sp->B = splitc(v);
       else if (k == "sched" && sched) { *sched = v; std::replace(sched->begin(), sched->end(), ',', ' '); }
@@ -147,6 +164,7 @@ struct OEv {
 struct Exec {
   Spec spec;
   std::unique_ptr<Iter> iter;
+  std::unique_ptr<IterD> iterd;
   bool init_done = false;
   // producer script
   int pass = 0, idx = 0, nalloc = 0;
@@ -179,7 +197,7 @@ struct Exec {
       for (Cell *c : held[s]) seen.insert(c);
       if (cur_out[s] && *cur_out[s]) seen.insert(*cur_out[s]);
     }
-    if (iter && iter->out_data_) seen.insert(iter->out_data_);
+    if ((iter || iterd) && IT(this, out_data_)) seen.insert(IT(this, out_data_));
     n = static_cast<int>(seen.size());
     return n;
   }
@@ -189,13 +207,13 @@ struct Exec {
       for (Cell *h : held[s]) if (h == c) return true;
       if (cur_out[s] && *cur_out[s] == c) return true;
     }
-    return iter && iter->out_data_ == c;
+    return (iter || iterd) && IT(this, out_data_) == c;
   }
   std::string snapshot() const {
     char b[160];
-    snprintf(b, sizeof b, "q=%zu f=%zu nc=%u np=%u end=%d sig=%d proc=%d", iter->queue_.size(), iter->free_cells_.size(),
-             iter->nwait_consumer_, iter->nwait_producer_, iter->produce_end_.raw() ? 1 : 0,
-             static_cast<int>(iter->producer_sig_.raw()), iter->producer_sig_processed_.raw() ? 1 : 0);
+    snprintf(b, sizeof b, "q=%zu f=%zu nc=%u np=%u end=%d sig=%d proc=%d", IT(this, queue_.size()), IT(this, free_cells_.size()),
+             IT(this, nwait_consumer_), IT(this, nwait_producer_), IT(this, produce_end_.raw()) ? 1 : 0,
+             (iterd ? static_cast<int>(iterd->producer_sig_.raw()) : static_cast<int>(iter->producer_sig_.raw())), IT(this, producer_sig_processed_.raw()) ? 1 : 0);
     return b;
   }
 };
@@ -280,7 +298,6 @@ std::string classify(Exec *X) {
 }
 
 void do_op(Exec *X, int slot, const std::string &op) {
-  Iter *it = X->iter.get();
   char k = op[0];
   if (op == "n") {
     X->ev("start=n");
@@ -289,13 +306,13 @@ void do_op(Exec *X, int slot, const std::string &op) {
     X->cur_out[slot] = &p;
     std::string r;
     try {
-      bool got = it->Next(&p);
+      bool got = IT(X, Next(&p));
       if (got) {
         if (p == nullptr) { X->fail("C07", "none", "Next returned true with a null cell"); r = "ret=n:item:null"; }
         else {
           for (int s = 0; s < 2; ++s)
             for (Cell *h : X->held[s]) if (h == p) X->fail("C07", "none", "Next lent a cell that is already lent");
-          if (it->out_data_ == p) X->fail("C07", "none", "Next lent the cell held in out_data_");
+          if (IT(X, out_data_) == p) X->fail("C07", "none", "Next lent the cell held in out_data_");
           if (X->in_cb && X->cb_cell == p) X->fail("C07", "none", "Next lent the cell the produce callback is writing");
           r = "ret=n:item:" + std::to_string(p->v) + ":c" + std::to_string(p->id);
           X->olog.push_back(OEv{E_NEXT_ITEM, slot, p->v / 100, p->v % 100, 'n'});
@@ -323,7 +340,7 @@ void do_op(Exec *X, int slot, const std::string &op) {
     X->held[slot].erase(X->held[slot].begin() + static_cast<long>(i));
     X->cur_out[slot] = &p;
     try {
-      it->Recycle(&p);
+      IT(X, Recycle(&p));
       if (p != nullptr) X->fail("C07", "none", "Recycle did not clear the pointer");
       r = "ret=r:ok";
       X->olog.push_back(OEv{E_CALL_OK, slot, 0, 0, 'r'});
@@ -339,9 +356,9 @@ void do_op(Exec *X, int slot, const std::string &op) {
     X->olog.push_back(OEv{E_START, slot, 0, 0, 'n'});
     std::string r;
     try {
-      bool got = it->Next();
+      bool got = IT(X, Next());
       if (got) {
-        const Cell *p = it->out_data_;
+        const Cell *p = IT(X, out_data_);
         if (!p) { X->fail("C07", "none", "Next() returned true with out_data_ null"); r = "ret=nv:true:null"; }
         else {
           if (X->in_cb && X->cb_cell == p) X->fail("C07", "none", "Next() holds the cell the produce callback is writing");
@@ -363,7 +380,7 @@ void do_op(Exec *X, int slot, const std::string &op) {
     X->ev("start=v");
     std::string r;
     try {
-      const Cell &c = it->Value();
+      const Cell &c = IT(X, Value());
       r = "ret=v:" + std::to_string(c.v);
     } catch (...) {
       r = "ret=v:" + classify(X);
@@ -374,7 +391,7 @@ void do_op(Exec *X, int slot, const std::string &op) {
     X->olog.push_back(OEv{E_START, slot, 0, 0, 'b'});
     std::string r;
     try {
-      it->BeforeFirst();
+      IT(X, BeforeFirst());
       r = "ret=bf:ok";
       X->olog.push_back(OEv{X->destroyed ? E_CALL_OK : E_BF_OK, slot, 0, 0, 'b'});
     } catch (...) {
@@ -388,10 +405,10 @@ void do_op(Exec *X, int slot, const std::string &op) {
     std::string r;
     try {
       X->destroyed = true;
-      it->Destroy();
+      IT(X, Destroy());
       r = "ret=d:ok";
-      if (it->producer_thread_) X->fail("C09", "none", "Destroy returned without joining the producer thread");
-      if (it->queue_.size() || it->free_cells_.size() || it->out_data_)
+      if (IT(X, producer_thread_ != nullptr)) X->fail("C09", "none", "Destroy returned without joining the producer thread");
+      if (IT(X, queue_.size()) || IT(X, free_cells_.size()) || IT(X, out_data_))
         X->fail("C09", "none", "Destroy left cells behind");
       X->olog.push_back(OEv{E_DESTROY_OK, slot, 0, 0, 'd'});
     } catch (...) {
@@ -419,7 +436,8 @@ void do_op(Exec *X, int slot, const std::string &op) {
 }
 
 void main_body(Exec *X) {
-  X->iter->Init([X](Cell **d) { return cb_next(X, d); }, [X]() { cb_rew(X); });
+  if (X->iterd) X->iterd->Init([X](Cell **d) { return cb_next(X, d); }, [X]() { cb_rew(X); });
+  else X->iter->Init([X](Cell **d) { return cb_next(X, d); }, [X]() { cb_rew(X); });
   X->init_done = true;
   std::vector<std::string> ops = X->spec.A;
   if (ops.empty() || ops.back() != "d") ops.push_back("d");
@@ -430,17 +448,23 @@ void main_body(Exec *X) {
   }
 }
 
+template <typename I>
+void label_all(I *it) {
+  vs::set_label(&it->mutex_, "m");
+  vs::set_label(&it->mutex_exception_, "x");
+  vs::set_label(&it->producer_cond_, "cp");
+  vs::set_label(&it->consumer_cond_, "cc");
+  vs::set_label(&it->producer_sig_, "sig");
+  vs::set_label(&it->producer_sig_processed_, "proc");
+  vs::set_label(&it->produce_end_, "end");
+}
+
 vs::Program make_program(const Spec &sp) {
   std::shared_ptr<Exec> X(new Exec);
   X->spec = sp;
-  X->iter.reset(new Iter(static_cast<size_t>(sp.cap)));
-  vs::set_label(&X->iter->mutex_, "m");
-  vs::set_label(&X->iter->mutex_exception_, "x");
-  vs::set_label(&X->iter->producer_cond_, "cp");
-  vs::set_label(&X->iter->consumer_cond_, "cc");
-  vs::set_label(&X->iter->producer_sig_, "sig");
-  vs::set_label(&X->iter->producer_sig_processed_, "proc");
-  vs::set_label(&X->iter->produce_end_, "end");
+  if (sp.dchk) X->iterd.reset(new IterD(static_cast<size_t>(sp.cap)));
+  else X->iter.reset(new Iter(static_cast<size_t>(sp.cap)));
+  if (X->iterd) label_all(X->iterd.get()); else label_all(X->iter.get());
   g_cur = X.get();
   vs::Program p;
   Exec *raw = X.get();
@@ -468,7 +492,7 @@ struct MacroChooser : vs::Chooser {
     Exec *X = g_cur;
     if (!X->init_done) { kind.push_back(2); return first_plain(alts); }
     if (!fine && ctx.last_tid >= 0 &&
-        (X->iter->mutex_.owner == ctx.last_tid || X->iter->mutex_exception_.owner == ctx.last_tid)) {
+        (IT(X, mutex_.owner) == ctx.last_tid || IT(X, mutex_exception_.owner) == ctx.last_tid)) {
       for (size_t i = 0; i < alts.size(); ++i)
         if (!alts[i].c.spurious && alts[i].c.tid == ctx.last_tid) { kind.push_back(1); return i; }
     }
@@ -564,7 +588,11 @@ void oracle(Exec *X, const vs::Result &r, std::vector<std::string> *fails) {
     fail(thrown ? "C09" : lp, cls, std::string(vs::status_name(r.status)) + ": " + b);
     if (thrown) return;
   }
-  for (auto &u : r.uncaught) fail("C09", "none", "exception left a thread: " + u);
+  // class dcheck-in-catch: the producer failed while Destroy's command was pending and the DCHECK in its
+  // catch block threw out of the thread function (std::terminate in a real run)
+  for (auto &u : r.uncaught)
+    fail("C09", (u.find("T1:") == 0 && u.find("!= kDestroy") != std::string::npos) ? "dcheck-in-catch" : "none",
+         "exception left a thread (std::terminate): " + u.substr(0, 3) + u.substr(u.find("] ") == std::string::npos ? 3 : u.find("] ") + 1));
   for (auto &e : r.errors) fail("C07", "none", "synchronisation misuse: " + e);
   if (r.status != vs::COMPLETED) return;
 
@@ -617,7 +645,7 @@ void oracle(Exec *X, const vs::Result &r, std::vector<std::string> *fails) {
         }
         break;
       case E_CALL_ERR:
-        if (!thrown) fail("C09", "none", "a call failed although the producer did not");
+        if (!thrown) fail(lp, "none", "a call failed although the producer did not");
         any_err = true;
         break;
       case E_CALL_OK:
@@ -656,7 +684,7 @@ void oracle(Exec *X, const vs::Result &r, std::vector<std::string> *fails) {
   }
   if (X->nalloc > sp.cap + X->max_lent)
     fail("C07", "none", "allocated " + std::to_string(X->nalloc) + " cells > max_capacity + max lent " + std::to_string(X->max_lent));
-  if (X->iter->producer_thread_) fail("C09", "none", "producer thread not joined at the end");
+  if (IT(X, producer_thread_ != nullptr)) fail("C09", "none", "producer thread not joined at the end");
 }
 
 // ------------------------------------------------------------------------------------------------
@@ -844,21 +872,38 @@ int main(int argc, char **argv) {
   // every program: a few PCT schedules (macro, with correspondence) incl. spurious wake-ups;
   // a seeded selection of programs: exhaustive DFS with <=2 (quick) / <=3 (thorough) preemptions;
   // fine-grained (every shim operation) PCT + bounded DFS for the oracles alone.
-  long per_prog_dfs = budget >= 0 ? budget : (R.thorough() ? 6000 : 250);
-  size_t n_dfs = R.thorough() ? ps.size() : std::min<size_t>(ps.size(), 8);
+  long per_prog_dfs = budget >= 0 ? budget : (R.thorough() ? 1500 : 250);
+  size_t n_dfs = std::min<size_t>(ps.size(), R.thorough() ? 40 : 8);
   std::set<size_t> pick;
   while (pick.size() < n_dfs) pick.insert(static_cast<size_t>(rng.below(ps.size())));
+  if (prop == "C09") {
+    // focus programs, explored exhaustively in every run: a failure racing with BeforeFirst / Destroy
+    for (const char *src : {"0t", "1t"})
+      for (const char *a : {"bf", "n,bf", "bf,n", "d"}) {
+        G.dfs(mk(1, src, "", 'd', a), 2, R.thorough() ? 4000 : 400, 0, false);
+      }
+    G.dfs(mk(1, "1e", "t", 's', "n,bf,n"), 2, R.thorough() ? 4000 : 300, 0, false);
+    // the DCHECK-live instantiation (what a build with DMLC_LOG_DEBUG == 0 compiles): a failure racing with Destroy;
+    // every shim operation is a decision, oracle only (the model describes the configuration without DCHECKs)
+    for (const char *src : {"0t", "1t", "2t"})
+      for (const char *a : {"d", "n,d", "n,r0,d"}) {
+        Spec sp = mk(src[0] == '2' ? 2 : 1, src, "", src[0] == '1' ? 's' : 'd', a);
+        sp.dchk = true;
+        G.dfs(sp, 2, R.thorough() ? 3000 : 250, 0, true);
+        for (int k = 0; k < (R.thorough() ? 40 : 4); ++k) G.pct(sp, rng.next(), 1 + static_cast<int>(rng.below(3)), 0, true, 120);
+      }
+  }
   for (size_t i = 0; i < ps.size(); ++i) {
     const Spec &sp = ps[i];
-    int npct = R.thorough() ? 60 : 4;
+    int npct = R.thorough() ? 20 : 4;
     for (int k = 0; k < npct; ++k) G.pct(sp, rng.next(), 1 + static_cast<int>(rng.below(4)), k % 3 == 0 ? 2 : 0, false, 60);
-    int nfine = R.thorough() ? 30 : 2;
+    int nfine = R.thorough() ? 10 : 2;
     for (int k = 0; k < nfine; ++k) G.pct(sp, rng.next(), 1 + static_cast<int>(rng.below(4)), k % 3 == 1 ? 1 : 0, true, 200);
     G.rnd(sp, rng.next(), 2, false);
     if (pick.count(i)) {
       G.dfs(sp, R.thorough() ? 3 : 2, per_prog_dfs, 0, false);
-      G.dfs(sp, 1, R.thorough() ? 1500 : 80, 1, false);
-      G.dfs(sp, R.thorough() ? 2 : 1, R.thorough() ? 3000 : 120, 0, true);
+      G.dfs(sp, 1, R.thorough() ? 400 : 80, 1, false);
+      G.dfs(sp, R.thorough() ? 2 : 1, R.thorough() ? 600 : 120, 0, true);
     }
   }
   R.extra["executions"] = G.n_exec;
